@@ -225,3 +225,69 @@ func Harness_C27_over_time() {
 	}
 	v.Reach("C27.over_time.end")
 }
+
+// The sliding window behind the *_over_time functions: a series of 5 points one step (60 s) apart, each
+// missing or present (arbitrary pattern), window of 1..3 steps, strict or not, run through the loop of
+// overTimeCall (transcribed: moveOneLeft / setValueAtRight / fillPrefixWith are the real ones, results
+// are written in place as the real loop does) with count_over_time and sum_over_time: every output
+// point equals the function over exactly the present points of its own window [r-k+1, r] of the
+// ORIGINAL series, and the points without a full window to their left are missing (the one point whose
+// window would begin at the first axis point is left unconstrained).
+func Harness_C27_window_over_time() {
+	const n = 5
+	t := make([]int64, n)
+	orig := make([]float64, n)
+	vals := make([]float64, n)
+	for i := 0; i < n; i++ {
+		t[i] = int64(1000 + 60*i)
+		orig[i] = float64(i + 1)
+		if v.NondetBool() {
+			orig[i] = NilValue
+		}
+		vals[i] = orig[i]
+	}
+	k := 1 + v.Choice(3)
+	strict := v.NondetBool()
+	useSum := v.NondetBool()
+	fn, nilValue := funcCountOverTime, 0.0
+	if useSum {
+		fn, nilValue = funcSumOverTime, NilValue
+	}
+	wnd := newWindow(t, vals, int64(60*k), 60, strict)
+	for wnd.moveOneLeft() {
+		if wnd.n != 0 {
+			wnd.setValueAtRight(fn(vals[wnd.l : wnd.r+1]))
+		} else {
+			wnd.setValueAtRight(nilValue)
+		}
+	}
+	wnd.fillPrefixWith(NilValue)
+	for r := 0; r < n; r++ {
+		if r < k-1 {
+			v.Assert("C27.window.no_full_window_is_missing", vals[r] != vals[r])
+			continue
+		}
+		if r == k-1 {
+			// the window would start at the very first point of the axis (the extra point left of the
+			// requested range): the code reports it missing; not constrained here
+			continue
+		}
+		cnt, sum := 0, 0.0
+		for j := r - k + 1; j <= r; j++ {
+			if orig[j] == orig[j] {
+				cnt++
+				sum += orig[j]
+			}
+		}
+		if useSum {
+			if cnt == 0 {
+				v.Assert("C27.window.sum_of_empty_window_is_missing", vals[r] != vals[r])
+			} else {
+				v.Assert("C27.window.sum_over_present_points_of_own_window", vals[r] == sum)
+			}
+		} else {
+			v.Assert("C27.window.count_of_present_points_of_own_window", vals[r] == float64(cnt))
+		}
+	}
+	v.Reach("C27.window.end")
+}
